@@ -59,7 +59,15 @@ def _alarm(signum, frame):
 
 
 def run_real(fn, args, ctx, limit: int = 5):
-    """Outcome of the real interpreter: {'val': value} or {'err': class}."""
+    """Outcome of the real interpreter: {'val': value} or {'err': class}.  A run that exceeds the limit is repeated once with six times
+    the limit before it counts as not terminating: on a loaded machine a slow run is not a hang, and one flaky alarm discredits every real one."""
+    out = _run_real_once(fn, args, ctx, limit)
+    if out.get('err') == 'Timeout':
+        out = _run_real_once(fn, args, ctx, limit * 6)
+    return out
+
+
+def _run_real_once(fn, args, ctx, limit: int):
     import copy
     a = copy.deepcopy(args)
     signal.signal(signal.SIGALRM, _alarm)
